@@ -11,12 +11,27 @@
 //             pregram  kernel matrix = X^T X by a matrix product, distances from it (Gram-level comparison only)
 //   -DPART=3  obj      a std::vector of non-index objects (name + own copy of the vector) with hand-written callbacks;
 //             cbeq_k / cbeq_d = 1 iff those (textbook) callbacks return bit-identical doubles to the eigen callbacks on every pair
+//             pst pst2 pfn pcp   the ParametersInitializedState kept in a variable (built from a temporary ParametersSet:
+//             in place / by a helper function that has returned / heap original copied and deleted), the stack scribbled
+//             over, then .embedUsing(X) in a later statement (pst2: the same state finished a second time)
+//   -DPART=4 -DCB_MASK=m  stored-state forms (bit0 kernel, bit1 distance, bit2 features; callbacks = owning_cb, a callback
+//             that owns a copy of the data, is created as a TEMPORARY in the argument expression, poisons itself on
+//             destruction and records which of its members is invoked on which object id).  For every attachment
+//             order <o> of the subset (field orders3=kdf,fdk restricts those of three callbacks), names prefixed S<m>_:
+//             one_<o>   the chain as one expression
+//             st_<o> st2_<o> st3_<o>  every intermediate state (with(..) included) in an `auto` variable, the stack
+//                       scribbled over between the statements; the final state finished by embedRange, finished AGAIN by
+//                       embedUsing(container); a second final state attached to the same stored predecessor and finished
+//             fn_<o>    every state returned by a helper function that has returned (its temporaries' frames are reused)
+//             cp_<o>    every state created on the heap, copied, the original deleted, the chain continued from the copy
+//             <name>.r=k1,d2,f3   which member was invoked on which callback id (ids = position in the chain, 1-based)
 // Before every form: std::srand(seed), verif_shuffle_generator().seed(seed).  Built without -fopenmp (summation
 // order must not depend on scheduling; thread-count independence is property C15).
 #include <tapkee/tapkee.hpp>
 #include <tapkee/callbacks/precomputed_callbacks.hpp>
 #include <tapkee/chain_interface.hpp>
 
+#include <algorithm>
 #include <cstring>
 #include <unistd.h>
 
@@ -77,6 +92,288 @@ struct silent_logger : public LoggerImplementation
     void message_benchmark(const std::string&) override {}
     void message_debug(const std::string&) override {}
 };
+
+// unrelated code that reuses the stack below the caller's frame (what a helper function's temporaries lived in)
+__attribute__((noinline)) static void scribble_stack()
+{
+    volatile unsigned char pad[49152];
+    for (size_t i = 0; i < sizeof pad; i++)
+        pad[i] = static_cast<unsigned char>(0xA5 ^ (i * 31));
+    volatile unsigned sink = pad[4711];
+    (void)sink;
+}
+
+static std::string what_text(const std::exception& e)
+{
+    std::string w = e.what();
+    for (auto& c : w)
+        if (c == ' ')
+            c = '_';
+    return w;
+}
+
+// statements that build chain states may themselves throw (a poisoned callback being copied): reported under the form's name
+template <class Fn> static void guarded(std::ostringstream& o, const std::string& name, Fn body)
+{
+    try
+    {
+        body();
+    }
+    catch (const std::exception& e)
+    {
+        o << " " << name << "=throw:other:" << what_text(e);
+    }
+}
+
+__attribute__((noinline)) static auto fn_start(const std::string& kw)
+{
+    return tapkee::with(vfront::make_set(kw));
+}
+
+#if PART == 4
+#ifndef CB_MASK
+#define CB_MASK 7
+#endif
+static unsigned char g_route[3][8];
+static void routes_clear()
+{
+    std::memset(g_route, 0, sizeof g_route);
+}
+static std::string routes_text()
+{
+    std::string r;
+    for (int s = 0; s < 3; s++)
+        for (int id = 0; id < 8; id++)
+            if (g_route[s][id])
+                r += std::string(r.empty() ? "" : ",") + "kdf"[s] + std::to_string(id);
+    return r.empty() ? "-" : r;
+}
+// A callback that OWNS its data (a copy of the matrix) - it is handed to the chain as a temporary, so whatever keeps it
+// must keep a copy.  Same expressions as the library's eigen callbacks (bit-identical values); each object answers only in
+// the role it was handed over for.  Destruction poisons the
+// object: the data is overwritten and `mark` cleared, so a use through a dangling reference is an observation even
+// where the sanitizer does not see it (stack-use-after-return).
+struct owning_cb
+{
+    static constexpr unsigned ALIVE = 0x600DCB01u, DEAD = 0xDEADCB02u;
+    owning_cb(const DenseMatrix& m, int id_, int role_) : X(m), id(id_), role(role_), mark(ALIVE) {}
+    owning_cb(const owning_cb& other) : X(), id(other.id), role(other.role), mark(ALIVE)
+    {
+        if (other.mark != ALIVE)
+            throw std::logic_error("a callback object was copied after its destruction (something kept a reference to a temporary)");
+        X = other.X;
+    }
+    owning_cb& operator=(const owning_cb&) = delete;
+    ~owning_cb()
+    {
+        volatile double* p = X.data();
+        for (IndexType i = 0; i < X.size(); i++)
+            p[i] = 1e300 * static_cast<double>(i + 1);
+        mark = DEAD;
+        id = 7;
+        role = 3;
+    }
+    void touch(int slot) const
+    {
+        if (mark != ALIVE)
+            throw std::logic_error("a callback object was used after its destruction (something kept a reference to a temporary)");
+        // each object is handed over for ONE role (0 kernel, 1 distance, 2 features); being invoked in another one means
+        // a state answered with a different object than the one it was given (e.g. whatever now lives at a dangling address)
+        if (slot != role)
+            throw std::logic_error(std::string("a callback object handed over as ") + "kdf"[role] + " was invoked as " + "kdf"[slot]);
+        g_route[slot][id & 7] = 1;
+    }
+    ScalarType kernel(IndexType a, IndexType b) const
+    {
+        touch(0);
+        return X.col(a).dot(X.col(b));
+    }
+    ScalarType distance(IndexType a, IndexType b) const
+    {
+        touch(1);
+        return (X.col(a) - X.col(b)).norm();
+    }
+    IndexType dimension() const
+    {
+        touch(2);
+        return static_cast<IndexType>(X.rows());
+    }
+    void vector(IndexType i, DenseVector& v) const
+    {
+        touch(2);
+        v = X.col(i);
+    }
+    DenseMatrix X;
+    volatile int id;
+    volatile int role;
+    volatile unsigned mark;
+};
+
+template <class Fn> static void fin(std::ostringstream& o, const std::string& name, unsigned seed, Fn fn)
+{
+    routes_clear();
+    std::string res = run_form(seed, fn);
+    o << " " << name << "=" << res << " " << name << ".r=" << routes_text();
+}
+
+// helper functions that build the next state from a temporary callback and RETURN before the chain goes on
+template <class S> __attribute__((noinline)) static auto fn_k(const S& s, const DenseMatrix& X, int id)
+{
+    return s.withKernel(owning_cb(X, id, 0));
+}
+template <class S> __attribute__((noinline)) static auto fn_d(const S& s, const DenseMatrix& X, int id)
+{
+    return s.withDistance(owning_cb(X, id, 1));
+}
+template <class S> __attribute__((noinline)) static auto fn_f(const S& s, const DenseMatrix& X, int id)
+{
+    return s.withFeatures(owning_cb(X, id, 2));
+}
+
+#define STR2(x) #x
+#define STR(x) STR2(x)
+#define PFX "S" STR(CB_MASK) "_"
+#define W_k withKernel
+#define W_d withDistance
+#define W_f withFeatures
+#define PSET tapkee::with(vfront::make_set(kw))
+#define R_k 0
+#define R_d 1
+#define R_f 2
+#define CB(i, R) owning_cb(X, i, R_##R)
+#define RANGE(s) [&] { return (s).embedRange(cb, ce); }
+#define USING(s) [&] { return (s).embedUsing(idx); }
+
+// ---- one callback
+#define FORMS1(TAG, A)                                                                                                 \
+    if (want(TAG))                                                                                                     \
+    {                                                                                                                  \
+        fin(o, PFX "one_" TAG, seed, [&] { return PSET.W_##A(CB(1, A)).embedRange(cb, ce); });                            \
+        guarded(o, PFX "st_" TAG, [&] {                                                                                \
+            auto s0 = PSET;                                                                                            \
+            scribble_stack();                                                                                          \
+            auto s1 = s0.W_##A(CB(1, A));                                                                                 \
+            auto s1b = s0.W_##A(CB(2, A));                                                                                \
+            scribble_stack();                                                                                          \
+            fin(o, PFX "st_" TAG, seed, RANGE(s1));                                                                    \
+            fin(o, PFX "st2_" TAG, seed, USING(s1));                                                                   \
+            fin(o, PFX "st3_" TAG, seed, RANGE(s1b));                                                                  \
+        });                                                                                                            \
+        guarded(o, PFX "fn_" TAG, [&] {                                                                                \
+            auto s0 = fn_start(kw);                                                                                    \
+            scribble_stack();                                                                                          \
+            auto s1 = fn_##A(s0, X, 1);                                                                                \
+            scribble_stack();                                                                                          \
+            fin(o, PFX "fn_" TAG, seed, RANGE(s1));                                                                    \
+        });                                                                                                            \
+        guarded(o, PFX "cp_" TAG, [&] {                                                                                \
+            auto* h0 = new auto(PSET);                                                                                 \
+            auto c0 = *h0;                                                                                             \
+            delete h0;                                                                                                 \
+            scribble_stack();                                                                                          \
+            auto* h1 = new auto(c0.W_##A(CB(1, A)));                                                                      \
+            auto c1 = *h1;                                                                                             \
+            delete h1;                                                                                                 \
+            scribble_stack();                                                                                          \
+            fin(o, PFX "cp_" TAG, seed, USING(c1));                                                                    \
+        });                                                                                                            \
+    }
+
+// ---- two callbacks
+#define FORMS2(TAG, A, B)                                                                                              \
+    if (want(TAG))                                                                                                     \
+    {                                                                                                                  \
+        fin(o, PFX "one_" TAG, seed, [&] { return PSET.W_##A(CB(1, A)).W_##B(CB(2, B)).embedRange(cb, ce); });               \
+        guarded(o, PFX "st_" TAG, [&] {                                                                                \
+            auto s0 = PSET;                                                                                            \
+            scribble_stack();                                                                                          \
+            auto s1 = s0.W_##A(CB(1, A));                                                                                 \
+            scribble_stack();                                                                                          \
+            auto s2 = s1.W_##B(CB(2, B));                                                                                 \
+            auto s2b = s1.W_##B(CB(3, B));                                                                                \
+            scribble_stack();                                                                                          \
+            fin(o, PFX "st_" TAG, seed, RANGE(s2));                                                                    \
+            fin(o, PFX "st2_" TAG, seed, USING(s2));                                                                   \
+            fin(o, PFX "st3_" TAG, seed, RANGE(s2b));                                                                  \
+        });                                                                                                            \
+        guarded(o, PFX "fn_" TAG, [&] {                                                                                \
+            auto s0 = fn_start(kw);                                                                                    \
+            scribble_stack();                                                                                          \
+            auto s1 = fn_##A(s0, X, 1);                                                                                \
+            scribble_stack();                                                                                          \
+            auto s2 = fn_##B(s1, X, 2);                                                                                \
+            scribble_stack();                                                                                          \
+            fin(o, PFX "fn_" TAG, seed, RANGE(s2));                                                                    \
+        });                                                                                                            \
+        guarded(o, PFX "cp_" TAG, [&] {                                                                                \
+            auto* h0 = new auto(PSET);                                                                                 \
+            auto c0 = *h0;                                                                                             \
+            delete h0;                                                                                                 \
+            scribble_stack();                                                                                          \
+            auto* h1 = new auto(c0.W_##A(CB(1, A)));                                                                      \
+            auto c1 = *h1;                                                                                             \
+            delete h1;                                                                                                 \
+            scribble_stack();                                                                                          \
+            auto* h2 = new auto(c1.W_##B(CB(2, B)));                                                                      \
+            auto c2 = *h2;                                                                                             \
+            delete h2;                                                                                                 \
+            scribble_stack();                                                                                          \
+            fin(o, PFX "cp_" TAG, seed, USING(c2));                                                                    \
+        });                                                                                                            \
+    }
+
+// ---- three callbacks
+#define FORMS3(TAG, A, B, C)                                                                                           \
+    if (want(TAG))                                                                                                     \
+    {                                                                                                                  \
+        fin(o, PFX "one_" TAG, seed,                                                                                   \
+            [&] { return PSET.W_##A(CB(1, A)).W_##B(CB(2, B)).W_##C(CB(3, C)).embedRange(cb, ce); });                           \
+        guarded(o, PFX "st_" TAG, [&] {                                                                                \
+            auto s0 = PSET;                                                                                            \
+            scribble_stack();                                                                                          \
+            auto s1 = s0.W_##A(CB(1, A));                                                                                 \
+            scribble_stack();                                                                                          \
+            auto s2 = s1.W_##B(CB(2, B));                                                                                 \
+            scribble_stack();                                                                                          \
+            auto s3 = s2.W_##C(CB(3, C));                                                                                 \
+            auto s3b = s2.W_##C(CB(4, C));                                                                                \
+            scribble_stack();                                                                                          \
+            fin(o, PFX "st_" TAG, seed, RANGE(s3));                                                                    \
+            fin(o, PFX "st2_" TAG, seed, USING(s3));                                                                   \
+            fin(o, PFX "st3_" TAG, seed, RANGE(s3b));                                                                  \
+        });                                                                                                            \
+        guarded(o, PFX "fn_" TAG, [&] {                                                                                \
+            auto s0 = fn_start(kw);                                                                                    \
+            scribble_stack();                                                                                          \
+            auto s1 = fn_##A(s0, X, 1);                                                                                \
+            scribble_stack();                                                                                          \
+            auto s2 = fn_##B(s1, X, 2);                                                                                \
+            scribble_stack();                                                                                          \
+            auto s3 = fn_##C(s2, X, 3);                                                                                \
+            scribble_stack();                                                                                          \
+            fin(o, PFX "fn_" TAG, seed, RANGE(s3));                                                                    \
+        });                                                                                                            \
+        guarded(o, PFX "cp_" TAG, [&] {                                                                                \
+            auto* h0 = new auto(PSET);                                                                                 \
+            auto c0 = *h0;                                                                                             \
+            delete h0;                                                                                                 \
+            scribble_stack();                                                                                          \
+            auto* h1 = new auto(c0.W_##A(CB(1, A)));                                                                      \
+            auto c1 = *h1;                                                                                             \
+            delete h1;                                                                                                 \
+            scribble_stack();                                                                                          \
+            auto* h2 = new auto(c1.W_##B(CB(2, B)));                                                                      \
+            auto c2 = *h2;                                                                                             \
+            delete h2;                                                                                                 \
+            scribble_stack();                                                                                          \
+            auto* h3 = new auto(c2.W_##C(CB(3, C)));                                                                      \
+            auto c3 = *h3;                                                                                             \
+            delete h3;                                                                                                 \
+            scribble_stack();                                                                                          \
+            fin(o, PFX "cp_" TAG, seed, USING(c3));                                                                    \
+        });                                                                                                            \
+    }
+#endif
 
 #if PART == 3
 struct Obj
@@ -159,9 +456,11 @@ int main()
             idx[i] = i;
         const std::string kw = f.count("kw") ? f["kw"] : "";
         std::ostringstream o;
+#if PART != 4
         eigen_kernel_callback ek(X);
         eigen_distance_callback ed(X);
         eigen_features_callback ef(X);
+#endif
 #if PART == 1
         o << "matrix=" << run_form(seed, [&] { return tapkee::with(vfront::make_set(kw)).embedUsing(X); });
         o << " kdf=" << run_form(seed, [&] { return tapkee::with(vfront::make_set(kw)).withKernel(ek).withDistance(ed).withFeatures(ef).embedRange(idx.begin(), idx.end()); });
@@ -183,6 +482,25 @@ int main()
         }
         o << " matrixrev=" << run_form(seed, [&] { return tapkee::with(vfront::make_set(kw)).embedUsing(Xrev); });
         o << " rangerev=" << run_form(seed, [&] { return tapkee::with(vfront::make_set(kw)).withKernel(ek).withDistance(ed).withFeatures(ef).embedRange(rev.begin(), rev.end()); });
+        // the ParametersInitializedState itself kept in a variable: built from a temporary ParametersSet, finished later
+        guarded(o, "pst", [&] {
+            auto s0 = tapkee::with(vfront::make_set(kw));
+            scribble_stack();
+            o << " pst=" << run_form(seed, [&] { return s0.embedUsing(X); });
+            o << " pst2=" << run_form(seed, [&] { return s0.embedUsing(X); });
+        });
+        guarded(o, "pfn", [&] {
+            auto s0 = fn_start(kw);
+            scribble_stack();
+            o << " pfn=" << run_form(seed, [&] { return s0.embedUsing(X); });
+        });
+        guarded(o, "pcp", [&] {
+            auto* h0 = new auto(tapkee::with(vfront::make_set(kw)));
+            auto c0 = *h0;
+            delete h0;
+            scribble_stack();
+            o << " pcp=" << run_form(seed, [&] { return c0.embedUsing(X); });
+        });
 #elif PART == 2
         DenseMatrix Kp(N, N), Dp(N, N);
         for (int i = 0; i < N; i++)
@@ -223,6 +541,29 @@ int main()
         o << "cbeq_k=" << (same_k ? 1 : 0) << " cbeq_d=" << (same_d ? 1 : 0);
         o << " obj=" << run_form(seed, [&] { return tapkee::with(vfront::make_set(kw)).withFeatures(ofc).withDistance(odc).withKernel(okc).embedRange(objs.begin(), objs.end()); });
         o << " objusing=" << run_form(seed, [&] { return tapkee::with(vfront::make_set(kw)).withKernel(okc).withDistance(odc).withFeatures(ofc).embedUsing(objs); });
+#elif PART == 4
+        const std::vector<IndexType>& cidx = idx;
+        auto cb = cidx.begin(), ce = cidx.end();
+        std::vector<std::string> only = f.count("orders3") ? vh::split(f["orders3"], ',') : std::vector<std::string>();
+        auto want = [&](const char* tag) {
+            return std::strlen(tag) < 3 || only.empty() || std::find(only.begin(), only.end(), tag) != only.end();
+        };
+#if CB_MASK == 1
+        FORMS1("k", k)
+#elif CB_MASK == 2
+        FORMS1("d", d)
+#elif CB_MASK == 4
+        FORMS1("f", f)
+#elif CB_MASK == 3
+        FORMS2("kd", k, d) FORMS2("dk", d, k)
+#elif CB_MASK == 5
+        FORMS2("kf", k, f) FORMS2("fk", f, k)
+#elif CB_MASK == 6
+        FORMS2("df", d, f) FORMS2("fd", f, d)
+#else
+        FORMS3("kdf", k, d, f) FORMS3("kfd", k, f, d) FORMS3("dkf", d, k, f)
+        FORMS3("dfk", d, f, k) FORMS3("fkd", f, k, d) FORMS3("fdk", f, d, k)
+#endif
 #endif
         fprintf(out, "%s\n", o.str().c_str());
         fflush(out);
